@@ -328,8 +328,11 @@ func Decode(input NodeEdgeChildren, outputStruct any) error {
 				// need to expand the slice in this case.
 				g.KeyMaxInt = index
 			}
+		} else if g.KeyMaxInt < 0 && p.Tombstone%2 == 0 {
+			// Empty p.Key is treated like "0": it counts toward `KeyMaxInt`
+			// so that an empty slice is expanded to hold it
+			g.KeyMaxInt = 0
 		}
-		// else p.Key is treated like "0"; no need to update `g` at all
 		g.Points = append(g.Points, p)
 		pointGroups[p.Type] = g
 	}
@@ -345,6 +348,9 @@ func Decode(input NodeEdgeChildren, outputStruct any) error {
 			} else if index > g.KeyMaxInt && p.Tombstone%2 == 0 {
 				g.KeyMaxInt = index
 			}
+		} else if g.KeyMaxInt < 0 && p.Tombstone%2 == 0 {
+			// Empty p.Key is treated like "0"
+			g.KeyMaxInt = 0
 		}
 		g.Points = append(g.Points, p)
 		edgePointGroups[p.Type] = g
